@@ -17,7 +17,8 @@ char *strchr(const char *str, int ch) {
 	char *chp = strchrnul(str, ch);
 
 	if (*chp == '\0') {
-		return ch == *chp ? chp : NULL;
+		/* ch is converted to char, as in strchrnul: strchr(s, 256) finds the terminator */
+		return (char) ch == *chp ? chp : NULL;
 	}
 
 	return chp;
